@@ -18,7 +18,9 @@ EXPLANATION = (
     "every path, the batch loop re-checks the slot after every process_events, successful or failed (F-C06-2), and unregisters when the slot is empty "
     "or the lookup misses; (3) no forget/leak/into_raw/transmute of loop-owned values outside a frozen table; (4) T1 class DROP: a "
     "dispatcher (Rc<dyn EventDispatcher>) is never dropped or overwritten while a loop-state guard is live, unless a keep-alive "
-    "witness is provably live or the overwritten slot is provably empty."
+    "witness is provably live or the overwritten slot is provably empty; the removing operations only borrow and drop the "
+    "dispatcher they took out of the slot - it is never moved into a container or a field (no list of removed sources that a "
+    "later step has to empty)."
 )
 
 LEAK_TABLE = {
